@@ -32,6 +32,9 @@ open Irismod Irismod.Sdk Irismod.Token Irismod.Props.C09
 #print axioms issue_module_account_zero
 #print axioms mint_module_account_zero
 #print axioms issue_fee_split
+#print axioms ownidx_step
+#print axioms ownidx_genesis
+#print axioms ownidx_run
 -- non-vacuity: from the witness genesis an owner issues, mints within the cap, a holder burns a fraction,
 -- ownership moves and the new owner (only) can edit; the invariant's hypotheses hold along the way
 def demoOps : List Op :=
